@@ -336,6 +336,13 @@ func relAttach(r *Run, kinds map[string]bool, min int) {
 				}
 			}
 		}
+		if !strings.HasPrefix(list, "relationships") && !strings.HasPrefix(list, "documentRelationships") {
+			// built by a helper that returns it (fallbackPackageRelationships(), missingStylesRelationship()):
+			// the owner is whatever the callers do with the result
+			if l2 := ownerViaCallers(p, parts, rl.Fn, 0); l2 != "" {
+				list = l2
+			}
+		}
 		listOK := strings.HasPrefix(list, own.list+".") || list == own.list || strings.HasPrefix(list, own.list+"(")
 		r.Check("rel-attach-owner", key, rl.Pos, listOK,
 			fmt.Sprintf("a %s relationship belongs to %s (part directory %q) but %s attaches it to %q", kind, own.list, own.base, shortName(rl.Fn), list))
@@ -828,4 +835,64 @@ func ruleKindInjective(r *Run) {
 		seen[c.pat] = c.kind
 	}
 	r.Check("kind-injective", "getFileNameForType", fn.Pos(), ok, "each header/footer kind has its own part name: "+map[bool]string{true: fmt.Sprintf("%d kinds, %d distinct patterns", len(cases), len(seen)), false: detail}[ok])
+}
+
+// ownerViaCallers: a relationship (list) built in fn and returned: which Document list do the
+// callers put it into, or which relationship part do they serialise it into?
+func ownerViaCallers(p *Program, parts []partStore, fn *ssa.Function, depth int) string {
+	if depth > 2 {
+		return ""
+	}
+	top := topLevel(fn)
+	for _, caller := range sortedFuncs(p.callersIndex()[top]) {
+		found := ""
+		allInstrs(caller, func(in ssa.Instruction) {
+			c, ok := in.(*ssa.Call)
+			if !ok || staticCallee(c) != top || found != "" {
+				return
+			}
+			for use := range forwardFlow(c, nil) {
+				switch x := use.(type) {
+				case *ssa.Store:
+					chain, _ := addrChain(x.Addr)
+					for _, f := range chain {
+						if f != nil && (f.Name() == "relationships" || f.Name() == "documentRelationships") && fieldIs(p, f, pkgDoc, "Document", f.Name()) {
+							found = f.Name()
+						}
+					}
+				case *ssa.Call:
+					if bi, ok := x.Call.Value.(*ssa.Builtin); ok && bi.Name() == "append" {
+						if chain, _ := addrChain(x.Call.Args[0]); len(chain) > 0 {
+							for _, f := range chain {
+								if f != nil && (f.Name() == "relationships" || f.Name() == "documentRelationships") {
+									found = listName(chain)
+								}
+							}
+						}
+					}
+				}
+			}
+		})
+		if found == "" {
+			// serialised by the caller into a relationship part
+			for _, ps := range parts {
+				if topLevel(ps.Fn) != topLevel(caller) {
+					continue
+				}
+				switch k, _ := ps.Key.isConst(); k {
+				case "word/_rels/document.xml.rels":
+					found = "documentRelationships(serialised)"
+				case "_rels/.rels":
+					found = "relationships(serialised)"
+				}
+			}
+		}
+		if found == "" {
+			found = ownerViaCallers(p, parts, caller, depth+1)
+		}
+		if found != "" {
+			return found
+		}
+	}
+	return ""
 }
